@@ -34,3 +34,5 @@ def run(ctx):
     ctx.rule('C15-R2 algorithm terms')
     cmp_many(ctx, CRC, [('crc_table', S.CRC_TABLE), ('crc_back_table', S.CRC_BACK_TABLE), ('crc', S.CRC), ('crc_back_pos', S.CRC_BACK_POS),
                         ('crc32', S.CRC32), ('crc32_back_pos', S.CRC32_BACK_POS), ('crc32_fix', S.CRC32_FIX), ('crc32_fix_pos', S.CRC32_FIX_POS)])
+
+    dependencies(ctx, ['crysp/bits.py', 'crysp/crc.py'], 'C15')
